@@ -71,6 +71,11 @@ var supportRules = map[string]func(*Report){
 	"close-reports-errors":          ruleCloseReportsErrors,
 	"pool-flush-complete":           rulePoolFlushComplete,
 	"translate-all":                 ruleTranslateAll,
+	"fc-list-nonnil":                ruleFCListNonNil,
+	"file-leak":                     ruleFileLeak,
+	"field-file-replaced":           ruleFieldFileReplaced,
+	"remap-offset":                  ruleRemapOffset,
+	"chunk-file-fresh":              ruleChunkFileFresh,
 	"notify":                        ruleNotify,
 	"notify-reset":                  ruleNotifyReset,
 	"wait-protocol":                 ruleWaitProtocol,
@@ -121,3 +126,12 @@ func (r *Report) support(groups ...[]string) {
 		}
 	}
 }
+
+// open(2) flag values as the os package of this toolchain defines them for the
+// analysed platform (linux): the analysed program's constants are compared
+// with these.
+const (
+	osOCreate = 0x40
+	osOExcl   = 0x80
+	osOTrunc  = 0x200
+)
